@@ -52,4 +52,36 @@ def run (script : List Outcome) (es : List Ending) : Res :=
       | none => if anyEnd then "nil" else "HANG"     -- blocked in Accept until somebody closes the listener
     ends := endings es false, accepted := a.accepted, delays := a.delays }
 
+/-! ### two listeners served by one server, idle connections on both, a listener whose `Close` reports an error -/
+
+structure Res2 where
+  serveA : String
+  serveB : String
+  ends : List String
+  accepted : Nat
+  opened : Nat          -- connections still open after the endings
+deriving Repr, Inhabited
+
+/-- `Close`/`Shutdown` called one after the other on a server with `n` idle connections; `lerr`: some listener's `Close`
+    reports an error (remembered, the walk over listeners and connections goes on).  Returns the results and the number
+    of connections left open. -/
+def endings2 : List Ending → Bool → Bool → Nat → List String × Nat
+  | [], _, _, n => ([], n)
+  | .none :: t, closed, lerr, n => let r := endings2 t closed lerr n; ("-" :: r.1, r.2)
+  | .close :: t, closed, lerr, n =>
+    if closed then let r := endings2 t true lerr n; ("closed" :: r.1, r.2)
+    else let r := endings2 t true lerr 0; ((if lerr then "listenerr" else "nil") :: r.1, r.2)
+  | .shutdown :: t, closed, lerr, n =>
+    if closed then let r := endings2 t true lerr n; ("closed" :: r.1, r.2)
+    else
+      -- idle connections never finish by themselves: the context expires
+      let r := endings2 t true lerr n
+      ((if n > 0 then "ctx" else if lerr then "listenerr" else "nil") :: r.1, r.2)
+
+def run2 (nA nB : Nat) (errA errB : Bool) (es : List Ending) : Res2 :=
+  let r := endings2 es false (errA || errB) (nA + nB)
+  let anyEnd := es.any (· != .none)
+  { serveA := if anyEnd then "nil" else "HANG", serveB := if anyEnd then "nil" else "HANG",
+    ends := r.1, accepted := nA + nB, opened := r.2 }
+
 end SmtpV.Lifecycle
